@@ -245,9 +245,15 @@ func (d *decompressor) nextBlockAt(off int64, rs io.ReadSeeker) *decompressor {
 		}
 	}
 
-	d.blk.setBase(d.cr.offset())
+	base := d.cr.offset()
+	d.blk.setBase(base)
 	d.err = d.readMember()
 	if d.err != nil {
+		// The Block still holds the header and data of the member it
+		// was last used for. Discard them so that the Block cannot be
+		// cached or reused as if it were the member at the new base.
+		d.blk.setOwner(d.owner)
+		d.blk.setBase(base)
 		d.wg.Done()
 		return d
 	}
